@@ -113,6 +113,12 @@ def varint_facts(ctx) -> Dict[str, Any]:
                     conts.add(fold(side, mod.consts))
                 except _Unfoldable:
                     pass
+        if isinstance(n, ast.AugAssign) and isinstance(n.op, ast.BitOr):
+            # groups[-1] |= 0x80: the flag set in place on the group written before
+            try:
+                conts.add(fold(n.value, mod.consts))
+            except _Unfoldable:
+                pass
     facts["dump_masks"], facts["dump_shifts"], facts["dump_conts"] = sorted(masks), sorted(shifts), sorted(conts)
 
     # size_varint: returned constants per branch and divisor of the positive branch
@@ -628,7 +634,7 @@ def rule_N8(ctx, rule: str = "N8") -> None:
     decided = 0
     for v in vals:
         try:
-            paths = Interp(mod, bindings={N(vparam): v}, concrete_while=True).run(w)
+            paths = Interp(mod, bindings={N(vparam): v}, concrete_while=True, local_tables=True).run(w)
         except AnalysisError:
             undecided += 1
             continue
@@ -642,6 +648,18 @@ def rule_N8(ctx, rule: str = "N8") -> None:
             continue
         out = b""
         ok = True
+        if p.value is not None and p.value[0] == "c" and isinstance(p.value[1], (bytes, bytearray)) and not any(
+                e.kind == "call" and e.data[1][0] == "a" and e.data[1][2] == "write" for e in p.events):
+            # the writer returns the bytes (a local sequence of groups tracked item by item)
+            decided += 1
+            want = _spec_varint(v)
+            if bytes(p.value[1]) != want and bad is None:
+                bad = (v, f"writes {bytes(p.value[1]).hex()}, the encoding is {want.hex()}")
+            continue
+        if any((e.kind == "aug" and e.data[0][0] != "n") or (e.kind == "store" and e.data[0][0] == "sub") for e in p.events):
+            # an item changed in place after it was appended: the pieces seen at append time are not what is written
+            undecided += 1
+            continue
         for e in p.events:
             piece = None
             if e.kind == "call" and e.data[1][0] == "a" and e.data[1][2] == "write" and len(e.data[2]) == 1:
